@@ -15,6 +15,18 @@ CHECKS = {
         "Trusted: vk.oracles.gf2 (self-tested bit-mask arithmetic), torch, CPython. RPTU database path not driven.",
         "3 C01",
     ),
+    "C03": (
+        "runtime monitoring: boundary oracle - exact minimum distance / cyclic structure of the code the encoder actually emits, computed by an independent bit-mask reference (enumeration, MacWilliams), compared with what the object advertises",
+        "Held (apart from listed findings) on every structured code object of the catalogue incl. every divisor of X^n+1 and every accepted BCH design distance, with the true distance computed exactly; exploration over configurations, each decided exactly.",
+        "Trusted: vk.oracles.gf2 / gf2m after self-test (known weight enumerators, BCH generators, primitive polynomials). Codes with k>20 and n-k>20 skip the distance clause.",
+        "3 C03",
+    ),
+    "C04": (
+        "runtime monitoring: boundary oracle (exact equality with the fed message) over catalogue x messages x layouts x block counts, plus rejection monitor for non-multiples",
+        "Held on all catalogue objects for all 2^k messages (k<=12) in 1-D/(B,.)/(B1,B2,.) layouts with 1..4 blocks; exploration with exhaustive message sub-spaces.",
+        "Trusted: torch tensor equality. Non-contiguous inputs not generated; non-float32 dtypes only judged when accepted.",
+        "3 C04",
+    ),
 }
 
 ALL = [f"C{i:02d}" for i in range(1, 21)]
